@@ -118,6 +118,10 @@ func HeaderFields(t *rapid.T, label string, p []byte) {
 	copy(p[12:16], rapid.SampledFrom([]string{"scnr", "mntr", "prtr", "link", "spac", "abst", "nmcl"}).Draw(t, label+"class"))
 	copy(p[16:20], rapid.SampledFrom([]string{"GRAY", "GRAY", "RGB ", "CMYK", "Lab ", "XYZ ", "YCbr", "Luv ", "Yxy ", "HSV ", "HLS ", "CMY ", "2CLR", "6CLR", "FCLR"}).Draw(t, label+"space"))
 	copy(p[20:24], rapid.SampledFrom([]string{"XYZ ", "Lab "}).Draw(t, label+"pcs"))
+	if string(p[12:16]) == "link" {
+		// a DeviceLink profile names its destination device space in this field
+		copy(p[20:24], rapid.SampledFrom([]string{"CMYK", "RGB ", "GRAY", "Lab ", "6CLR", "CMY "}).Draw(t, label+"linkdst"))
+	}
 	copy(p[8:12], rapid.SampledFrom([]string{"\x02\x10\x00\x00", "\x02\x40\x00\x00", "\x04\x00\x00\x00", "\x04\x20\x00\x00", "\x04\x30\x00\x00", "\x04\x40\x00\x00", "\x05\x00\x00\x00"}).Draw(t, label+"version"))
 	copy(p[40:44], rapid.SampledFrom([]string{"APPL", "MSFT", "SGI ", "SUNW", "\x00\x00\x00\x00"}).Draw(t, label+"platform"))
 	binary.BigEndian.PutUint32(p[64:], uint32(rapid.IntRange(0, 3).Draw(t, label+"intent")))
